@@ -388,13 +388,12 @@ func (cs *clientStream) doHttpCall(transport http.RoundTripper, req *http.Reques
 
 	var rErr error
 	rMuHeld := false
+	var reply *http.Response
 
 	defer func() {
 		if !rMuHeld {
 			cs.rMu.Lock()
 		}
-		defer cs.rMu.Unlock()
-
 		if rErr != nil && cs.rErr == nil {
 			// a read that failed because the context ended reports the context's
 			// error as is; callers must see a status
@@ -403,6 +402,16 @@ func (cs *clientStream) doHttpCall(transport http.RoundTripper, req *http.Reques
 		cs.done = true
 		readPipe.CloseWithError(rErr)
 		close(cs.rCh)
+		cs.rMu.Unlock()
+
+		// Drain the reply only now that the outcome is published and the request
+		// pipe is closed: a server that still waits for the end of the request body
+		// does not finish its response before that, and callers must not be held
+		// up (nor rMu be held) until it does.
+		if reply != nil {
+			ioutil.ReadAll(reply.Body)
+			reply.Body.Close()
+		}
 	}()
 
 	onReady := func(err error, headers metadata.MD) {
@@ -415,15 +424,12 @@ func (cs *clientStream) doHttpCall(transport http.RoundTripper, req *http.Reques
 		cs.ready.Done()
 	}
 
-	reply, err := transport.RoundTrip(req.WithContext(cs.ctx))
+	var err error
+	reply, err = transport.RoundTrip(req.WithContext(cs.ctx))
 	if err != nil {
 		onReady(statusFromContextError(err), nil)
 		return
 	}
-	defer func() {
-		ioutil.ReadAll(reply.Body)
-		reply.Body.Close()
-	}()
 
 	if len(cs.copts.Peer) > 0 {
 		cs.copts.SetPeer(getPeer(cs.baseUrl, reply.TLS))
